@@ -8,11 +8,69 @@ HERE = os.path.dirname(os.path.dirname(os.path.abspath(__file__)))
 
 TECH = 'bounded symbolic execution of the real code (CrossHair/z3, path exhaustion) + z3 call-shape queries; replay-confirmed counterexamples'
 
+TRUST = ' Trusted: CrossHair path exhaustion over the harness decision tree, z3, the call-shape theory (re-validated against real CPython calls on every run), invariance of sigtools under injective renaming of parameters.'
+
 CLAIMED = {
     'C01': dict(
         text='Real signatures.merge is executed symbolically (CrossHair) on every tuple of the bounded signature universe; per tuple z3 decides over all call shapes (unbounded positional count, all keyword subsets) that no accepted call is rejected by an input. Exhaustive within the stated bounds, nothing outside.',
-        note='Bounds: quick = pairs with <=2 named parameters each (all name-equality patterns, equal/different star names) and triples with <=2 named in total; thorough = pairs <=3/<=5 total, triples <=4 total, 4-tuples. Trusted: CrossHair path exhaustion, z3, the call-shape theory (re-validated against real CPython calls each run), renaming invariance.',
+        note='Bounds: quick = pairs with <=2 named parameters each (all name-equality patterns) and triples with <=2 named in total; thorough = pairs <=3/<=5 total with star-name variants, triples <=4 total, 4-tuples.' + TRUST,
         ref='4/C01'),
+    'C02': dict(
+        text='Real signatures.embed on every (outer, inner[, innermost]) of the bounded universe x 4 flag combinations; z3 decides soundness and exactness against the execution model Exec (outer accepts, inner accepts what outer forwards) over all call shapes, and the raise condition; associativity and identity laws compared structurally.',
+        note='Bounds: quick = pairs <=3 named in total (same star names) + <=2 with star-name variants, triples <=2 total; thorough = pairs K<=3/<=4 total, triples <=3 total.' + TRUST + ' Exec is re-validated against really executed wrappers on every run.',
+        ref='4/C02'),
+    'C03': dict(
+        text='Real signatures.mask on every signature x num_args (z3 integer 0..len+2) x ordered name tuples x hide flags; z3 decides Accept(mask,(m,kw)) <=> Accept(sig,(n+m,kw+names)) over all call shapes, the ValueError condition, and hide-flag soundness by finite expansion of the hidden arguments; order independence and composition laws compared structurally.',
+        note='Bounds: quick = K<=2 with <=2 names in every order, K<=3 with <=1 name, 15 hide combinations on K<=2; thorough = K<=3/3 names, K<=4/2 names.' + TRUST,
+        ref='4/C03'),
+    'C05': dict(
+        text='Programs of a forwarding grammar are generated production by production from solver decisions, compiled and given to the real sigtools.signature; when the result is not the plain signature z3 decides over all call shapes that every accepted non-colliding call executes (model re-checked by really calling the generated function), or, for tainted / foreign / doubled stars, that the callee\'s parameters are not advertised and soundness holds for some contents of that star.',
+        note='Bounds: quick = sum of four focus groups (star forms x site shapes; 16 contexts x 6 routes; 22 taint statements before/after; unresolvable callees) with bare outer and callee <=1 named parameter, plus positional-only outers on self/partial routes; thorough = larger def-lists, 2 names, full cross product (time-limited).' + TRUST + ' Ground-truth semantics of the grammar productions are the generator\'s (validated by real execution of witnesses).',
+        ref='4/C05'),
+    'C06': dict(
+        text='Same program space as C05: the discovered signature and provenance are compared with the value obtained through the public algebra (specifiers.forwards + merge) from the generator\'s ground truth; programs whose written call can never succeed (z3: no call shape accepted) may also yield the plain signature.',
+        note='Bounds as C05. Differential between two routes through the real code; the solver explores the grammar exhaustively within the bound and decides the impossible-call escape.' + TRUST,
+        ref='4/C06'),
+    'C09': dict(
+        text='Exactness of the real merge on name-aligned role-consistent pairs (two unsat queries per pair over all call shapes, raise <=> no common call), unary/idempotence/neutral-element/round-trip laws on all signatures, fold law on role-consistent triples.',
+        note='Bounds: quick = pairs K<=2, unary laws K<=3, triples <=2 named in total; thorough = pairs K<=3/<=5 total, unary K<=4, triples <=4 total.' + TRUST,
+        ref='4/C09'),
+    'C10': dict(
+        text='merge/embed/mask/forwards/partial run on inputs whose default and annotation VALUES are z3 integers; the metadata rules (optional iff all optional, common default else None, agreed annotation else none, kinds only restrict, order, outer-before-inner, outer defaults dropped only before a required inner positional) are asserted on the symbolic values, the equality case splits being made by z3.',
+        note='Bounds: quick = pairs <=2 named in total (triples <=1 each, no stars), singles K<=2; thorough = pairs <=4/<=3 total, triples <=3.' + TRUST + ' A concrete dry run decides whether the operation raises (error messages format parameters, which would enumerate symbolic values).',
+        ref='4/C10'),
+    'C11': dict(
+        text='Every function is compiled with and without `from __future__ import annotations`, each with its own globals binding the same annotation name to its own z3 integer; for 10 operations source_value() must equal the integer of the defining function and evaluated() of the postponed twin must equal the eager twin.',
+        note='Bounds: quick = functions with <=2 named parameters (<=2 in total for binary operations), no star parameters; thorough = K<=1 with stars, <=3 in total without.' + TRUST,
+        ref='4/C11'),
+    'C12': dict(
+        text='Every decorator form of modifiers (kwoargs, posoargs, both stacked, start=, end=, autokwoargs) on every function of the universe and every selection: admissibility <=> no ValueError, advertised signature == independently computed rewrite, and the decorated callable (direct and bound) accepts/rejects and routes SYMBOLIC argument values exactly like a native def with that signature (z3 validity).',
+        note='Bounds: quick = signatures K<=2, direct calls on K<=2 for all kwoargs/posoargs assignments, bound calls on 2-parameter methods for all forms; thorough = K<=3 and 3 positional-or-keyword parameters.' + TRUST,
+        ref='4/C12'),
+    'C14': dict(
+        text='str/bind/bind_partial of upgraded signatures produced through 5 routes are compared with a plain inspect.Signature of the same parameters on forked call shapes with symbolic values; replace()/evaluated() keep type, provenance and upgraded annotations; ==, != and hash are exercised against 13 kinds of partners (None, str, plain inspect objects, upgraded objects differing in one field).',
+        note='Bounds: quick = K<=2; thorough = K<=3.' + TRUST,
+        ref='4/C14'),
+    'C15': dict(
+        text='merge/embed/mask/forwards on the whole universe including role-inconsistent inputs, all flags, symbolic num_args, foreign and duplicate names: outcome is a re-validated UpgradedSignature or ValueError (IncompatibleSignatures where stated); plain inspect inputs give the same parameters plus a DeprecationWarning.',
+        note='Bounds: quick = merge pairs <=3 total, embed pairs <=2 total, mask K<=2/1 name/16 hide combinations, forwards <=1 named in total; thorough = larger totals and triples.' + TRUST,
+        ref='4/C15'),
+    'C16': dict(
+        text='(a) deep identity+content snapshots of all inputs before/after every algebra operation, results share no map/list with inputs; (b) 14 retrieval scenarios x 6 fault types x a SYMBOLIC crash index (unbounded z3 integer): the k-th crossing from sigtools into outside code raises; afterwards every reachable object has exactly its former attributes and the as_forged guard is empty.',
+        note='Bounds: (a) pairs <=2 named in total (forwards <=1), singles K<=2; (b) the listed scenarios, one fault per retrieval, crossings intercepted at _util.funcsigs/_util.inspect/_util.ast/bind_partial/user forger/user getter. Asynchronous exceptions are outside the fault model.' + TRUST,
+        ref='4/C16'),
+    'C18': dict(
+        text='(a) every permutation of admissible applications of kwoargs/posoargs/autokwoargs/annotate gives the same advertised signature and the same call behaviour on symbolic values; (b) every history of <=L operations {retrieve on instance/class, call, access twice, drop + gc.collect()} over two instances of classes using each descriptor kind gives history-free results bound to the right instance, and dropped instances are reclaimed (weakref observers, control class).',
+        note='Bounds: quick = functions with <=2 parameters and <=3 applications, histories L<=3; thorough = 3 parameters, L<=5.' + TRUST,
+        ref='4/C18'),
+    'C19': dict(
+        text='Real functools.partial objects over every function of the universe, every count of bound positionals and ordered bound keyword tuples (foreign included), flat or nested, with SYMBOLIC bound values: z3 decides Accept(R,(m,kw)) <=> Accept(f,(cnt+m,kw+bound)) for both retrieval routes, raise <=> uncallable, and the structural clauses (defaults == bound values by z3 validity); discovery through partial(wrapper, callee).',
+        note='Bounds: quick = K<=2, <=2 bound keywords; thorough = K<=3.' + TRUST,
+        ref='4/C19'),
+    'C20': dict(
+        text='support.s / func_from_sig round trips over the universe with literal defaults/annotations x 8 read_sig option combinations x eager/postponed; bind_callsig, sort_callsigs and the function made by support.f compared with really calling a native def on symbolic values; make_up_callsigs completeness by set inclusion.',
+        note='Bounds: quick = K<=2; thorough = K<=3.' + TRUST,
+        ref='4/C20'),
 }
 
 NOT_APPLICABLE = {
@@ -45,7 +103,7 @@ def main():
         if pid in CLAIMED:
             continue
         na.append(dict(property_id=pid, reason=NOT_APPLICABLE.get(
-            pid, 'check not built yet in this session (planned, see DESIGN.md section 4); not claimed')))
+            pid, 'no check is registered for this property yet (harness under construction, see DESIGN.md section 4); nothing is claimed')))
     m = dict(
         version=1,
         setup_cmd='./setup.sh',
